@@ -3,6 +3,7 @@ from ..props import prop
 
 prop(
     "C14",
+    ready=True,
     level="other",
     smt=True,
     explanation=(
